@@ -309,6 +309,11 @@ def build_configs(tier, seed):
     # tetrahedra: numeric geometry, symbolic point
     add('finder/tet2/Gnum/cands=01', finder_config, mesh='tet2', cands=[0, 1], npts=1, numeric_geometry=True, nominal_pts=[[0.3, 0.3, 0.25]], timeout=900)
     add('finder/tet2/Gnum/cands=1', finder_config, mesh='tet2', cands=[1], npts=1, numeric_geometry=True, nominal_pts=[[0.3, 0.3, 0.25]], timeout=900)
+    # batches mixing points inside and outside the mesh must raise (the out-of-mesh test is per point)
+    add('finder/tet2/Gnum/two-points/in+out', finder_config, mesh='tet2', cands=[0, 1], npts=2, numeric_geometry=True,
+        nominal_pts=[[0.3, 0.3, 0.25], [-0.5, 0.2, 0.1]], timeout=900)
+    add('finder/tet2/Gnum/two-points/out+in', finder_config, mesh='tet2', cands=[1, 0], npts=2, numeric_geometry=True,
+        nominal_pts=[[3.0, 0.2, 0.1], [0.3, 0.3, 0.25]], timeout=900)
     # probes / interpolator / point_source
     for spec in ['ElementTriP1', 'ElementTriP2', 'ElementTriMini', 'ElementVector(ElementTriP1())', 'ElementTriRT1'] + \
             ([] if quick else ['ElementTriP3', 'ElementTriN1', 'ElementTriHHJ1']):
